@@ -5,6 +5,71 @@ import wrlib
 PROPS = 'Props/C08.v'
 
 
+def user_header(kind, nbytes, rng):
+    """gzip.Header setting that adds exactly nbytes to the 18-byte BGZF header."""
+    h = dict(mtime=0, nsec=0, os=255, setos=False, name=[], comment=[], extra=None)
+    if kind == 'comment':
+        h['comment'] = [rng.choice([65, 66, 67, 200]) for _ in range(nbytes - 1)]
+    elif kind == 'name':
+        h['name'] = [rng.choice([65, 66, 67, 233]) for _ in range(nbytes - 1)]
+    elif kind == 'extra':
+        body = nbytes - 4
+        h['extra'] = [88, 89, body & 255, body >> 8] + [rng.randrange(256) for _ in range(body)]
+    else:   # split over all three
+        a = nbytes // 3
+        b = (nbytes - a) // 2
+        cbytes = nbytes - a - b
+        h['comment'] = [67] * (a - 1)
+        h['name'] = [78] * (b - 1)
+        h['extra'] = [88, 89, (cbytes - 4) & 255, (cbytes - 4) >> 8] + [7] * (cbytes - 4)
+    return h
+
+
+def boundary_family(rng, tier):
+    """One full 65280-byte block whose gzip member length is aimed at 65534..65540: the compressed length is
+    measured first (level 0 stores; random data is stored at every level), then the header is sized."""
+    BS = wrlib.BS
+    seed = rng.randrange(1, 60000)
+    specs = [(0, 0, seed), (1, -1, seed), (1, 1, seed + 1), (1, 9, seed + 2)] + ([(1, 5, seed + 3), (2, 0, 3)] if tier != 'quick' else [])
+    probes = core.run_harness('c08', [dict(mode='probe', ops=[dict(op='w', kind=k, seed=sd, len=BS)], levels=[lvl]) for k, lvl, sd in specs])
+    cases = []
+    for n, ((k, lvl, sd), pr) in enumerate(zip(specs, probes)):
+        q = pr['probe'][0]
+        base = 18 + q['clen'] + 8
+        aims = range(65534, 65541) if (n == 0 or tier != 'quick') else (65536, 65537)
+        for aim in aims:
+            kinds = ['comment'] if n == 0 else [rng.choice(['comment', 'name', 'extra', 'all'])]
+            if n == 0 and aim in (65536, 65537):
+                kinds = ['comment', rng.choice(['name', 'extra', 'all'])]
+            for hk in kinds:
+                cases.append(dict(mode='rt', ops=[dict(op='w', kind=k, seed=sd, len=BS), dict(op='close')], level=lvl,
+                                  wc=rng.randrange(0, 5), rd=rng.choice([0, 1, 2]), reads=[rng.choice([4096, 100000])], delay=0,
+                                  hdr=user_header(hk, aim - base, rng), hbytes=True, aim=aim, expect_overflow=aim > wrlib.MAXB,
+                                  probe=[q]))
+    return cases
+
+
+def haseof_family(rng, tier):
+    n = 14 if tier == 'quick' else 150
+    cases = []
+    for i in range(n):
+        close = i % 2 == 0
+        ops = wrlib.gen_script(rng, False, nops=rng.randrange(0, 4), close=close)
+        for o in ops:
+            if o['op'] == 'w':
+                o['len'] = min(o['len'], rng.choice([0, 1, 30, 120]))
+                o['kind'] = rng.choice([0, 2])
+        if not close:
+            # an unclosed stream with whole blocks in it: Write; Flush (then possibly more, unflushed)
+            ops = [dict(op='w', kind=rng.choice([0, 2]), seed=rng.randrange(1, 99), len=rng.choice([1, 30, 120])), dict(op='f')] + ops
+        if i == 1:
+            ops = []          # nothing written, not closed: empty stream
+        if i == 3:
+            ops = [dict(op='w', kind=0, seed=1, len=0)]
+        cases.append(dict(mode='haseof', ops=ops, level=rng.choice([-1, 0, 9]), wc=rng.randrange(0, 3), rd=1, delay=0, tmpdir=core.WORK))
+    return cases
+
+
 def gen_cases(rng, tier):
     nbig, nsmall, nwc = (5, 120, 25) if tier == 'quick' else (100, 2000, 300)
     cases = [dict(mode='laws', ops=[dict(op='w', kind=1, seed=rng.randrange(1, 1 << 20), len=wrlib.BS),
@@ -16,6 +81,8 @@ def gen_cases(rng, tier):
             h = dict(mtime=mt, nsec=0, os=os_ if os_ is not None else 255, setos=os_ is not None, name=[], comment=[], extra=None)
             cases.append(dict(mode='rt', ops=[dict(op='w', kind=2, seed=1, len=rng.choice([5, 300])), dict(op='close')], level=lvl, wc=rng.randrange(0, 3), rd=1,
                               reads=[4096], delay=0, hdr=h, hbytes=True))
+    cases += boundary_family(rng, tier)
+    cases += haseof_family(rng, tier)
     for i in range(nbig + nsmall):
         big = i < nbig
         close = rng.random() < 0.8
@@ -30,12 +97,18 @@ def gen_cases(rng, tier):
 
 
 def nontrivial(c, o):
-    return c.get('mode') == 'rt' and len(o.get('members') or []) > 0
+    if c.get('mode') == 'haseof':
+        return o.get('out_len', 0) >= 28
+    return c.get('mode') == 'rt' and (len(o.get('members') or []) > 0 or 'expect_overflow' in c)
 
 
 def bucket(c, o):
+    if c.get('mode') == 'haseof':
+        return 'haseof/closed=%s/len=%s' % (o.get('closed_ok'), '<28' if o.get('out_len', 0) < 28 else '>=28')
     if c.get('mode') != 'rt':
         return c.get('mode')
+    if 'expect_overflow' in c:
+        return 'boundary/level=%d/aim=%d' % (c['level'], c['aim'])
     h = c.get('hdr')
     kind = 'default' if wrlib.hdr_is_default(h) else '+'.join(k for k in ('mtime', 'name', 'comment', 'extra') if h.get(k)) or 'os'
     closed = any(x['op'] == 'close' for x in c['ops'])
@@ -48,7 +121,9 @@ def run(res, rng, tier):
                        'scripts as in C01 (closed and not closed, some with calls after Close) x gzip header settings: ModTime incl. values whose little-endian bytes contain 42 43 02 00 at '
                        'each of the three reachable offsets, before the epoch, above 2^32, sub-second; OS; Latin-1 Name/Comment containing B,C,2 bytes; well-formed Extra subfields '
                        'containing B C 2 0 (total user bytes < 190 so that a full block still fits); levels -1..9; for a subset the same script is run at wc 0..4 with and without delays '
-                       'and the bytes compared; a case is non-trivial when the output has at least one member; distinct by (ops, level, wc, header, delay)')
+                       'and the bytes compared; boundary family: one full incompressible (or level-0) block with Comment/Name/Extra sized, after measuring the compressed length, so that the member is '
+                       '65534..65540 bytes long; HasEOF family: closed / unclosed / empty streams asked through Size, Stat (temp file), Seek+Len with the cursor at 8 positions, and a bare ReaderAt; '
+                       'a case is non-trivial when the output has at least one member (HasEOF: at least 28 bytes); distinct by (mode, ops, level, wc, header, delay)')
 
 
 def replay(res, rp):
@@ -61,7 +136,8 @@ ASSUME = wrlib.ASSUME_COMMON + ['header settings are legal for compress/gzip (La
 CLAIM = dict(
     text='Machine-checked proof (Coq 8.16.1): for every script, level and legal gzip header setting that leaves room for a full block, the writer output is a concatenation of members, each '
          'with the BC subfield at offset 12 whose value is the member length minus one, at most 64 KiB long with at most 65280 payload bytes, that an RFC 1952 multi-member walker expands to '
-         'exactly the written data; it ends with the 28-byte EOF marker iff the writer was closed; the bytes are the same for every writer concurrency and schedule. '
+         'exactly the written data; for every header and block whatever writeBlock emits is at most MaxBlockSize long with BSIZE = length-1 and longer members are refused; '
+         'HasEOF equals "ends with the marker" for every reader kind and cursor position; it ends with the 28-byte EOF marker iff the writer was closed; the bytes are the same for every writer concurrency and schedule. '
          'The byte-level model (gzip header as compress/gzip writes it, BSIZE back-patch as writeBlock does it, read off the source by gen/) is compared with the real bytes on every run.',
     note='DEFLATE/CRC-32 as Section hypotheses, validated at run time. The back-patch position is extracted from writer.go on every run; the first-occurrence search of the original code is '
          'refuted in Coq (members_wellformed_first_index_refuted) and was repaired in /repo (fix: commit). Header settings that make gzip fail or overflow 64 KiB are outside the quantifier (error paths: C09). '
